@@ -246,11 +246,11 @@ Definition run_op (s : sf) (l : list N) : option (list N * sf * list N) :=
       | Panic => Some ([30; 2], s, r)
       end
   | 31 :: r => Some (31 :: show_state s, s, r)
-  | 40 :: _ :: _ :: _ :: r =>
+  | 40 :: _ :: _ :: _ :: exp :: r =>
       match rd_bytes r with
       | Some (json, r1) =>
           let ss := [(0, json)] in
-          let (out, s') := show_mut 40 s (Ok (write_record s [] ss (exp_for s [] ss 0))) in
+          let (out, s') := show_mut 40 s (Ok (write_record s [] ss (exp_for s [] ss exp))) in
           Some (out, s', r1)
       | None => None
       end
